@@ -202,11 +202,25 @@ def rule_dup(ctx):
             if isinstance(x, ast.Subscript) and _const_str(x.slice):
                 sect = _const_str(x.slice)
         ok = False
+        polarity_bad = []
         for a in asserts:
             if a.lineno > m.lineno:
                 continue
             # same block or enclosing block
             if not all(any(g2 is g1 for g2, _b in flow.guards_of(m, fn)) for g1, _b in flow.guards_of(a, fn)):
+                continue
+            # the assertion states that the overlap is EMPTY: `not dup`, `len(dup) == 0`, `dup == set()`
+            t_, neg_ = A.strip_not(a.test)
+            if isinstance(t_, ast.Name) or (isinstance(t_, ast.Call) and A.dotted(t_.func) in ('len', 'bool', 'any')):
+                states_empty = neg_
+            elif isinstance(t_, ast.Compare) and len(t_.ops) == 1:
+                rhs = t_.comparators[0]
+                zero = A.int_value(rhs) == 0 or (isinstance(rhs, ast.Call) and A.dotted(rhs.func) == 'set' and not rhs.args)
+                states_empty = zero and (isinstance(t_.ops[0], ast.Eq) != neg_)
+            else:
+                states_empty = None
+            if states_empty is False:
+                polarity_bad.append(a)
                 continue
             names = [x.id for x in ast.walk(a.test) if isinstance(x, ast.Name)]
             for nm in names:
@@ -222,8 +236,10 @@ def rule_dup(ctx):
                         if not later:
                             ok = True
         rep.ob('DUP', K.key('database._merge_database_dicts', None, 'merge(%s)-preceded-by-duplicate-assert' % sect),
-               ok, m, '' if ok else 'the %r section is merged without a dominating assertion that its names do not '
-               'collide with the accumulated dataset and alias names' % sect)
+               ok, m, '' if ok else ('the assertion before merging the %r section demands a NON-empty overlap (`%s`)' % (
+                   sect, A.short(polarity_bad[0].test, 50)) if polarity_bad else
+                   'the %r section is merged without a dominating assertion that its names do not '
+                   'collide with the accumulated dataset and alias names' % sect))
     # the alias section is optional in every part: every read of <part>['alias'] is guarded by membership
     for n in A.walk_local(fn):
         if isinstance(n, ast.Subscript) and isinstance(n.ctx, ast.Load) and _const_str(n.slice) == 'alias':
@@ -239,6 +255,26 @@ def rule_dup(ctx):
     ok = bool(dn) and all("'datasets'" in A.src(d) and "'alias'" in A.src(d) for d in dn)
     rep.ob('DUP', 'database._merge_database_dicts::names=datasets|aliases', ok, dn[0] if dn else fn,
            '' if ok else 'the set of taken names must include dataset names and alias names')
+    # the taken names are current when each part is checked: parts are merged one after the other in a loop, so the
+    # name set is either computed from the accumulator inside that loop or extended there with every merged section
+    loops = [l for m in merges for l in A.ancestors(m) if isinstance(l, (ast.For, ast.While))]
+    if loops and taken:
+        loop = loops[0]
+
+        def inside(n):
+            return any(a is loop for a in A.ancestors(n))
+        for t in sorted(taken):
+            t_defs = [n for n in A.walk_local(fn) if isinstance(n, (ast.Assign, ast.AugAssign, ast.AnnAssign))
+                      and t in A.name_targets(n.targets[0] if isinstance(n, ast.Assign) else n.target)]
+            in_loop = [n for n in t_defs if inside(n)]
+            grows = [n for n in A.walk_local(loop) if isinstance(n, ast.Call) and isinstance(n.func, ast.Attribute)
+                     and A.is_name(n.func.value, t) and n.func.attr in ('update', 'add')]
+            ok = bool(in_loop) or len(grows) >= len([m for m in merges if inside(m)])
+            rep.ob('DUP', 'database._merge_database_dicts::taken-names-current-for-every-part(%s)' % t, ok,
+                   t_defs[0] if t_defs else fn,
+                   '' if ok else '`%s` is computed once before the merge loop and never extended in it: names merged from '
+                   'part k are unknown when part k+1 is checked, so duplicate dataset / alias names between two later '
+                   'parts are accepted and silently overwrite each other' % t)
     # later parts restricted to datasets/alias
     # get_examples: alias union asserts disjoint ids
     dbc = ctx.repo.cls('database.Database')
